@@ -41,6 +41,26 @@ CATCH = {
  "C18-r2": (["C18"], ["C18|header-differs|other-header-field","C18|wire|hash-changed","C18|spv-sync|block-not-obtained"], True, ""),
  "C19-r2": (["C19"], ["C19|unspent-set-differs-from-ledger|missing"], True, ""),
  "C20-r2": (["C20"], ["C20|order|peers-held-then-blockchain|network.rs<-network.rs","C20|order|peers-held-then-config|network.rs<-network.rs","C20|deadlock|consensus:blockchain+config+mempool>peers|routing:config+peers>blockchain|…"], True, ""),
+ "C01-r3": (["C03","C01"], ["C03|ledger|both","C01|accepted|type-atr|block-tip"], False, "caught by C03 as found; C01: prune depth 1/2, longer side forks, abandoned-fork outputs offered as inputs"),
+ "C02-r3": (["C02"], ["C02|accepted|nft-overspend|pool","C02|panic|blockchain.rs:cannot_continue_with_invalid_total_supply"], False, "C02: hostile kinds gt-pays-out, nft-overspend"),
+ "C03-r3": (["C04"], ["C04|trace-left|tip"], False, "C04: ring family (small genesis period, block K before K-1, invalid child of K)"),
+ "C04-r3": (["C04"], ["C04|trace-left|tip"], True, "needs the ring family added for seeded C03-r3"),
+ "C05-r3": (["C05"], ["C05|moved|onto-invalid-chain|*"], True, ""),
+ "C06-r3": (["C06"], ["C06|accepted-under-same-hash|after-restart|*"], False, "C06: restart stage"),
+ "C07-r3": (["C07"], ["C07|producer-refused-own-block|network|other"], True, ""),
+ "C08-r3": (["C08"], ["C08|accepted|insufficient-work"], False, "C08: replica that joined at the parent"),
+ "C09-r3": (["C09","C18"], ["C09|hash-changes-on-wire|lite-block","C18|header-differs|synthetic-nonzero-header"], False, "C09: lite form over the wire; C18: synthetic non-zero header projection"),
+ "C10-r3": (["C10"], ["C10|panic|decoder|msg|ghost_chain_sync.rs:range_end_index_out_of_range"], True, ""),
+ "C11-r3": (["C11"], ["C11|panic|unparsable-signature|routing.process_network_event|crypto.rs:called_Result_unwrap_on_an_Err"], False, "C11: hostile kind unparsable-signature"),
+ "C12-r3": (["C12"], ["C12|clean-restart|tip-differs"], False, "C12: fork_first histories"),
+ "C13-r3": (["C04"], ["C04|trace-left|tip"], False, "same source change as seeded C03-r3; caught by C04's ring family"),
+ "C14-r3": (["C14"], ["C14|pool|reservation-missing-after|peer-side-conflict"], False, "C14: op peer-side-conflict and converse reservation oracle"),
+ "C15-r3": (["C15","C16"], ["C15|not-converged","C16|announced-block-never-requested"], True, ""),
+ "C16-r3": (["C16"], ["C16|announced-block-never-requested","C16|in-flight-exceeds-batch-size","C16|lower-height-skipped","C16|same-block-in-flight-twice"], True, ""),
+ "C17-r3": (["C17"], ["C17|connected-without-valid-response"], False, "C17: all-zero attacker challenge"),
+ "C18-r3": (["C18"], ["C18|wire|touching-tx-outputs-differ"], False, "C18: after-wire comparison of kept transactions' outputs"),
+ "C19-r3": (["C19"], ["C19|built-tx|does-not-validate|spend","C19|unspent-set-differs-from-ledger|missing"], False, "C19: ordinary transaction with replacement count != 1 next to payments"),
+ "C20-r3": (["C20"], ["C20|order|wallet-held-then-config|network.rs<-network.rs","C20|order|wallet-held-then-peers|network.rs<-network.rs"], True, ""),
  "C20": (["C20"], ["C20|order|wallet-held-then-blockchain|verification_thread.rs<-verification_thread.rs","C20|deadlock|consensus:blockchain+config>wallet|verification:wallet>blockchain"], True, ""),
 }
 extra = {}
